@@ -29,6 +29,14 @@ NotFeas == "MODE_NOT_FEASIBLE"
 
 Fitting(lib) == {i \in DOMAIN lib : lib[i].fits}
 
+(* The system margin added to a mode's required OSNR is the one of the DEFAULT spectral-information entry of the  *)
+(* equipment library: si = the SI entries as LISTED, [dflt, margin]; dflt marks an entry that is unnamed or named  *)
+(* "default".  When no entry is so marked the first listed one is the default.                                    *)
+DefaultMargin(si) ==
+  LET marked == {j \in 1..Len(si) : si[j].dflt}
+  IN  si[IF marked = {} THEN 1 ELSE SetMin(marked)].margin
+Threshold(osnr, si) == osnr + DefaultMargin(si)
+
 -----------------------------------------------------------------------------
 (* Automatic mode selection.  lib: sequence of mode records.  out = [sel |-> index or 0, block |-> string].   *)
 (* Each clause is a set of clause names that FAIL, so that a monitor can name what went wrong.                 *)
